@@ -249,6 +249,47 @@ class VAddNote(_VFloatOp):
         return FloatDataType(out)
 
 
+class VWeightedScale(_VFloatOp):
+    """data * sum(weights) + offset  (a list-valued parameter, typically taken from the context)."""
+
+    def _process_logic(self, data, weights: list, offset: float = 0.0):
+        REC.add("VWeightedScale", data, {"weights": list(weights), "offset": offset})
+        return FloatDataType(data.data * float(sum(weights)) + offset)
+
+
+class VRemember(_VFloatOp):
+    """Appends the current value to the list kept under ``weights`` IN PLACE (``lst.append(x)``) and publishes it again."""
+
+    @classmethod
+    def context_keys(cls) -> List[str]:
+        return ["weights"]
+
+    def _process_logic(self, data, weights: list):
+        REC.add("VRemember", data, {"weights": list(weights)})
+        weights.append(data.data)
+        self._notify_context_update("weights", weights)
+        return data
+
+
+class VTally(_VFloatOp):
+    """data + 1; writes ``note`` (declared as created) and REWRITES the existing key ``tally`` (+1).  Its write whitelist
+    (``context_keys``) is wider than the keys it declares as created: the update of ``tally`` is a fact of the run all the same."""
+
+    @classmethod
+    def context_keys(cls) -> List[str]:
+        return ["note", "tally"]
+
+    @classmethod
+    def get_created_keys(cls) -> List[str]:
+        return ["note"]
+
+    def _process_logic(self, data, tally: float = 0.0):
+        REC.add("VTally", data, {"tally": tally})
+        self._notify_context_update("note", data.data)
+        self._notify_context_update("tally", tally + 1.0)
+        return FloatDataType(data.data + 1.0)
+
+
 class VCollSum(DataOperation):
     """Sum of a FloatDataCollection plus offset."""
 
